@@ -1,4 +1,5 @@
 import Ibx.Gen.Addr2
+import Ibx.Gen.Pop3
 import Ibx.Model.Addr
 /-
   T1 tie for C04 (second part): structural facts re-read from the source on every run
@@ -82,9 +83,11 @@ theorem domainReturn_tie : Gen.Addr2.domainReturn = some "$canon($dom)" := by de
 /-- POP3 has one of the two recognised shapes: either it never consults the address policy and USER / APOP store
     the client's argument verbatim as the mailbox key (what the code is today: open finding F-04d, replayed on a
     real session by the harness on every run), or it goes through the address policy and no longer stores the raw
-    argument (the repaired shape).  Any other shape stops this obligation from checking. -/
+    argument (the repaired shape).  Any other shape stops this obligation from checking.  (The two facts are computed
+    in harness/cmd/extract/pop3.go — Gen.Pop3 — by role and path by path: the command parser may split the line with
+    strings.Split or with strings.Cut + strings.Split; the words after the first blank must come out unchanged.) -/
 theorem pop3_shape_recognised :
-    (Gen.Addr2.pop3UsesPolicy = false ∧ Gen.Addr2.pop3UserVerbatim = true) ∨
-    (Gen.Addr2.pop3UsesPolicy = true ∧ Gen.Addr2.pop3UserVerbatim = false) := by decide
+    (Gen.Pop3.usesPolicy = false ∧ Gen.Pop3.userVerbatim = true) ∨
+    (Gen.Pop3.usesPolicy = true ∧ Gen.Pop3.userVerbatim = false) := by decide
 
 end Ibx.Tie.Addr2
